@@ -1,11 +1,136 @@
 /-
-  C04 — depth-bounded creation reaches exactly the bounded language (theorems are added below).
+  C04 — depth-bounded creation reaches exactly the bounded language.
 -/
 import GEVerif.Model.Lang
+import GEVerif.Props.C01
+import GEVerif.Props.C03
+import GEVerif.Lemmas.Language
 
 namespace GEVerif.C04
-open GEVerif
+open GEVerif GEVerif.WellTyped GEVerif.Depth GEVerif.Analysis GEVerif.Language
 
-theorem C04_placeholder : True := trivial
+/-! ### 1. Soundness of creation: no invalid program is reachable -/
+
+/-- Whatever the state (random source, genotype, PI-grow flag) and the fuel: a program returned by
+`random_tree` under a valid depth-limited decider is a well-typed, refinement-satisfying program
+of the start symbol and respects the depth limit. -/
+theorem C04_reachable_in_language_spec (g : Grammar) (dec : Decider) (fuel : Nat) (s s' : SynSt)
+    (v : Val) (hg : grammarWF g = true) (hc : distConsistent g = true)
+    (hk : dec.kind.depthLimited = true) (hD : dec.maxDepth < INF)
+    (hv : deciderValid g dec = true) (h : randomTree g dec fuel s = .ok v s') :
+    wt g [] (.cls g.spec.start) v = true ∧ v.depth ≤ dec.maxDepth :=
+  ⟨C01.C01_random_tree_wt g hg dec fuel s s' v h,
+   C03.C03_random_tree_depth g dec fuel s s' v hc hk hD hv h⟩
+
+theorem C04_grow_sound (g : Grammar) (d fuel : Nat) (s s' : SynSt) (v : Val)
+    (hg : grammarWF g = true) (hc : distConsistent g = true) (hD : d < INF)
+    (hv : g.minTreeDepth ≤ d) (h : randomTree g ⟨.grow, d⟩ fuel s = .ok v s') :
+    wt g [] (.cls g.spec.start) v = true ∧ v.depth ≤ d :=
+  C04_reachable_in_language_spec g ⟨.grow, d⟩ fuel s s' v hg hc rfl hD
+    (by simpa [deciderValid] using hv) h
+
+theorem C04_full_sound (g : Grammar) (d fuel : Nat) (s s' : SynSt) (v : Val)
+    (hg : grammarWF g = true) (hc : distConsistent g = true) (hD : d < INF)
+    (hv : g.minTreeDepth ≤ d) (h : randomTree g ⟨.full, d⟩ fuel s = .ok v s') :
+    wt g [] (.cls g.spec.start) v = true ∧ v.depth ≤ d :=
+  C04_reachable_in_language_spec g ⟨.full, d⟩ fuel s s' v hg hc rfl hD
+    (by simpa [deciderValid] using hv) h
+
+theorem C04_pigrow_sound (g : Grammar) (d fuel : Nat) (s s' : SynSt) (v : Val)
+    (hg : grammarWF g = true) (hc : distConsistent g = true) (hD : d < INF)
+    (hv : g.minTreeDepth ≤ d) (h : randomTree g ⟨.pigrow, d⟩ fuel s = .ok v s') :
+    wt g [] (.cls g.spec.start) v = true ∧ v.depth ≤ d :=
+  C04_reachable_in_language_spec g ⟨.pigrow, d⟩ fuel s s' v hg hc rfl hD
+    (by simpa [deciderValid] using hv) h
+
+theorem C04_dsge_sound (g : Grammar) (d fuel : Nat) (s s' : SynSt) (v : Val)
+    (hg : grammarWF g = true) (hc : distConsistent g = true) (hD : d < INF)
+    (hv : g.minTreeDepth ≤ d) (h : randomTree g ⟨.dsge, d⟩ fuel s = .ok v s') :
+    wt g [] (.cls g.spec.start) v = true ∧ v.depth ≤ d :=
+  C04_reachable_in_language_spec g ⟨.dsge, d⟩ fuel s s' v hg hc rfl hD
+    (by simpa [deciderValid] using hv) h
+
+/-! ### 2. The enumerator `langTy` / `boundedLanguage` is sound (every fuel)
+
+`tyWF ty` is only needed for `strSize` alphabets (entries must be single characters, otherwise a
+"string of length k" built from `k` entries is longer than `k`); it is `true` by computation for a
+class symbol. -/
+
+/-- Every value the enumerator lists is well-typed for the type (whatever the sibling values:
+only refinements without dependencies are enumerated), refinements included, within the depth
+budget, and carries no synthesis metadata.  For EVERY fuel. -/
+theorem C04_language_sound (g : Grammar) (hg : grammarWF g = true) (fuel budget : Nat) (ty : Ty)
+    (v : Val) (hty : tyWF ty = true) (h : v ∈ langTy g fuel budget ty) :
+    (∀ deps, wt g deps ty v = true) ∧ v.depth ≤ budget ∧ v.erase = v :=
+  let hs := (soundP_all g (GWF_of_grammarWF g hg) fuel).1 budget ty v hty h
+  ⟨hs.1, hs.2.1, hs.2.2.1⟩
+
+theorem C04_bounded_language_sound (g : Grammar) (hg : grammarWF g = true) (d : Nat) (v : Val)
+    (h : v ∈ boundedLanguage g d) :
+    wt g [] (.cls g.spec.start) v = true ∧ v.depth ≤ d ∧ v.erase = v :=
+  let hs := C04_language_sound g hg _ d _ v rfl h
+  ⟨hs.1 [], hs.2⟩
+
+/-- More fuel never loses a program. -/
+theorem C04_language_fuel_mono (g : Grammar) (fuel fuel' budget : Nat) (ty : Ty) (v : Val)
+    (hle : fuel ≤ fuel') (h : v ∈ langTy g fuel budget ty) : v ∈ langTy g fuel' budget ty :=
+  langTy_mono_le g budget ty v fuel fuel' hle h
+
+/-! ### 3. The enumerator is complete
+
+`fuelOK g fuel budget ty` (Lemmas/Language.lean, decidable): the enumeration of `ty` never runs
+out of fuel.  `fcTy` / `fcGrammar`: `finiteChoiceTy` / `finiteChoice` without the plain `str`
+(`wt` accepts every string there, creation and the enumerator only `""`).  `altsAbstract`: only
+abstract classes have registered productions.  `ClosedNodes`: every symbol mentioned by a
+registered symbol is registered. -/
+
+theorem C04_language_complete (g : Grammar) (hg : grammarWF g = true)
+    (habs : altsAbstract g = true) (hcl : ClosedNodes g.spec g.reg) (hfc : fcGrammar g = true)
+    (fuel budget : Nat) (ty : Ty) (deps : List (String × Val)) (v : Val)
+    (hok : fuelOK g fuel budget ty = true) (hty : fcTy ty = true)
+    (hreg : ∀ s ∈ explode ty, s ∈ g.reg.allNodes)
+    (hw : wt g deps ty v = true) (hd : v.depth ≤ budget) (he : v.erase = v) :
+    v ∈ langTy g fuel budget ty :=
+  (completeP_all g ⟨GWF_of_grammarWF g hg, habs, hcl, hfc⟩ fuel).1 budget ty deps v hok hty hreg
+    hw hd he
+
+/-- Enough fuel exists for every type and budget, and stays enough. -/
+theorem C04_language_fuel_exists (g : Grammar) (hg : grammarWF g = true) (budget : Nat) (ty : Ty) :
+    ∃ F, ∀ fuel, F ≤ fuel → fuelOK g fuel budget ty = true := by
+  obtain ⟨F, hF⟩ := exists_fuel g (GWF_of_grammarWF g hg).alts budget ty
+  exact ⟨F, fun fuel hle => fuelOK_mono_le g budget ty F fuel hle hF⟩
+
+/-- EXACTNESS: from some fuel on, the enumerator lists exactly the well-typed,
+refinement-satisfying, metadata-free values of the type within the depth budget. -/
+theorem C04_language_exact (g : Grammar) (hg : grammarWF g = true)
+    (habs : altsAbstract g = true) (hcl : ClosedNodes g.spec g.reg) (hfc : fcGrammar g = true)
+    (budget : Nat) (ty : Ty) (hwf : tyWF ty = true) (hty : fcTy ty = true)
+    (hreg : ∀ s ∈ explode ty, s ∈ g.reg.allNodes) :
+    ∃ F, ∀ fuel, F ≤ fuel → ∀ v,
+      v ∈ langTy g fuel budget ty ↔ (wt g [] ty v = true ∧ v.depth ≤ budget ∧ v.erase = v) := by
+  obtain ⟨F, hF⟩ := C04_language_fuel_exists g hg budget ty
+  refine ⟨F, fun fuel hle v => ⟨fun h => ?_, fun h => ?_⟩⟩
+  · have hs := C04_language_sound g hg fuel budget ty v hwf h
+    exact ⟨hs.1 [], hs.2⟩
+  · exact C04_language_complete g hg habs hcl hfc fuel budget ty [] v (hF fuel hle) hty hreg
+      h.1 h.2.1 h.2.2
+
+/-- `boundedLanguage g d` is exactly the set of well-typed programs of the start symbol of depth
+at most `d` (metadata erased), provided its fuel is enough (`fuelOK`, checked by evaluation). -/
+theorem C04_bounded_language_exact (g : Grammar) (hg : grammarWF g = true)
+    (habs : altsAbstract g = true) (hcl : ClosedNodes g.spec g.reg) (hfc : fcGrammar g = true)
+    (d : Nat) (hstart : Sym.cls g.spec.start ∈ g.reg.allNodes)
+    (hok : fuelOK g (4 * (d + 2) * (g.spec.classes.length + 4) * (specSize g.spec + 2) + 64) d
+      (.cls g.spec.start) = true) (v : Val) :
+    v ∈ boundedLanguage g d ↔
+      (wt g [] (.cls g.spec.start) v = true ∧ v.depth ≤ d ∧ v.erase = v) := by
+  refine ⟨C04_bounded_language_sound g hg d v, fun h => ?_⟩
+  exact C04_language_complete g hg habs hcl hfc _ d _ [] v hok rfl
+    (by intro s hs; simp only [explode, List.mem_singleton] at hs; rw [hs]; exact hstart)
+    h.1 h.2.1 h.2.2
+
+/-- the strict finite-choice predicates imply the model's -/
+theorem C04_fc_finiteChoice (g : Grammar) (h : fcGrammar g = true) : finiteChoice g = true :=
+  fcGrammar_finiteChoice g h
 
 end GEVerif.C04
